@@ -270,7 +270,13 @@ def installed(sr):
             raise RuntimeError(f"seam {mod.__name__}.{name} disappeared")
         saved.append((mod, name, getattr(mod, name)))
         setattr(mod, name, obj)
-    igraph.set_random_number_generator(StdlibLike(sr, "igraph"))
+    # igraph calls back from C: an exception cannot propagate through it
+    # and a degenerate stream could make its rejection loops spin, so igraph
+    # is served by the plain uniform personality without a budget (the draws
+    # still come from the run's stream and are counted)
+    ig = ScriptedRandom(sr.rng, "uniform", budget=10 ** 12)
+    ig.by_site = sr.by_site
+    igraph.set_random_number_generator(StdlibLike(ig, "igraph"))
     np_state = np.random.get_state()
     try:
         yield sr
